@@ -342,14 +342,14 @@ pub fn run(ctx: &Ctx) -> &'static str {
     ctx.explore(
         "state",
         "tick histories directly on LinkCongestionState (record_rtt / record_loss / tick) with an RTT palette, irregular spacing incl. 0 ms and 5 s, loss from 0 to >100%, observed bitrate relative to the target; snapshot-to-snapshot monitor; non-trivial = >=3 CC states visited or the loss latch toggled",
-        ctx.tier.pick(12_000, 400_000),
+        ctx.tier.pick(60_000, 800_000),
         || st_strategy(mt),
         |_| check_state,
     );
     ctx.explore(
         "controller",
         "tick histories on LinkCcController::tick_all over 1..4 real connections (RTT via the real tracker, byte and NAK counters via real calls, counter resets through reset_for_reconnect, links vanishing and re-appearing); same monitor; non-trivial as above",
-        ctx.tier.pick(6_000, 200_000),
+        ctx.tier.pick(30_000, 400_000),
         || ctl_strategy(mt),
         |_| check_ctl,
     );
